@@ -24,8 +24,8 @@ static Level fam_FA(int maxnodes, int depth, bool rich, bool flat = false) {
   return {std::string("F-A") + (rich ? "" : "r") + (flat ? "-flat" : "") + "<=" + std::to_string(maxnodes), [=](const CB &cb) {
             gen::enum_FA(maxnodes, depth, rich, [&](const gen::Seq &s) { cb(single(flat ? gen::print_flat(s) : gen::print_fl(s))); }); }};
 }
-static Level fam_FB(int maxnodes, int depth) {
-  return {"F-B<=" + std::to_string(maxnodes), [=](const CB &cb) { gen::enum_FB(maxnodes, depth, [&](const gen::Seq &s) { cb(single(gen::print_fl(s))); }); }};
+static Level fam_FB(int maxnodes, int depth, bool flat = false) {
+  return {std::string("F-B") + (flat ? "-flat" : "") + "<=" + std::to_string(maxnodes), [=](const CB &cb) { gen::enum_FB(maxnodes, depth, [&](const gen::Seq &s) { cb(single(flat ? gen::print_flat(s) : gen::print_fl(s))); }); }};
 }
 // sources with a jump to a label that is not defined in the routine (alone, and with the label defined inside a PROGRAM only)
 static Level fam_FB_undefined(int maxnodes) {
@@ -249,11 +249,11 @@ int main(int argc, char **argv) {
   std::vector<int> shapesQ = {0, 1, 2, 4, 6, 7, 11, 15}, shapesAll = all_shapes(), shapesR = {1, 4, 8, 11, 12};
   if (P == "C01") {
     o = orc::oracle_C01;
-    L = {fam_FA(3, 2, true), fam_semladder(T ? 40 : 24), fam_FB(3, 2), fam_FC(2, shapesQ, 1, false, false, 0, "(<=2 defs of 8 shapes, main 1 node)"), fam_FC(1, shapesAll, 2, true, false, 2, "(1 def of 16 shapes, main<=2 nodes, rich args, both file layouts)"), fam_FC(2, shapesQ, 1, true, false, 0, "(<=2 defs of 8 shapes, main 1 node, rich args incl. nested calls)"), fam_FD(7, 1, 6), fam_FA(3, 2, true, true), fam_FC(3, shapesR, 1, false, false, 0, "(<=3 defs of 5 shapes incl. redefinition with another layout, main 1 node)"), fam_FC_dense(2, shapesQ, 1, "(<=2 defs of 8 shapes, main 1 node, 3 dense layouts)"), fam_FA(4, 2, true), fam_FA(4, 2, true, true)};
+    L = {fam_FA(3, 2, true), fam_semladder(T ? 40 : 24), fam_FB(3, 2), fam_FC(2, shapesQ, 1, false, false, 0, "(<=2 defs of 8 shapes, main 1 node)"), fam_FC(1, shapesAll, 2, true, false, 2, "(1 def of 16 shapes, main<=2 nodes, rich args, both file layouts)"), fam_FC(2, shapesQ, 1, true, false, 0, "(<=2 defs of 8 shapes, main 1 node, rich args incl. nested calls)"), fam_FD(7, 1, 6), fam_FA(3, 2, true, true), fam_FC(3, shapesR, 1, false, false, 0, "(<=3 defs of 5 shapes incl. redefinition with another layout, main 1 node)"), fam_FC_dense(2, shapesQ, 1, "(<=2 defs of 8 shapes, main 1 node, 3 dense layouts)"), fam_FB(3, 2, true), fam_FA(4, 2, true), fam_FA(4, 2, true, true)};
     if (T) { L.push_back(fam_FB(4, 2)); L.push_back(fam_FC(2, shapesAll, 2, false, false, 0, "(<=2 defs of 16 shapes, main<=2 nodes)")); L.push_back(fam_FD(11, 2, 8)); L.push_back(fam_FC(3, shapesQ, 1, false, false, 0, "(<=3 defs of 8 shapes, main 1 node)")); L.push_back(fam_FA(5, 2, false)); L.push_back(fam_FA(5, 2, false, true)); }
   } else if (P == "C03") {
     o = orc::oracle_C03;
-    L = {fam_unusual(), fam_semladder(T ? 40 : 24), fam_FB_undefined(T ? 3 : 2), fam_FA(3, 2, true), fam_FB(3, 2), fam_FC(2, shapesQ, 1, false, false, 0, "(<=2 defs of 8 shapes, main 1 node)"), fam_FC(1, shapesAll, 2, true, false, 2, "(1 def of 16 shapes, main<=2 nodes, rich args, both file layouts)"), fam_FC(2, shapesQ, 1, true, false, 0, "(<=2 defs of 8 shapes, main 1 node, rich args incl. nested calls)"), fam_FC(3, shapesR, 1, false, false, 0, "(<=3 defs of 5 shapes incl. redefinition with another layout, main 1 node)"), fam_FD(7, 1, 6), fam_FC_dense(2, shapesQ, 1, "(<=2 defs of 8 shapes, main 1 node, 3 dense layouts)")};
+    L = {fam_unusual(), fam_semladder(T ? 40 : 24), fam_FB_undefined(T ? 3 : 2), fam_FA(3, 2, true), fam_FB(3, 2), fam_FC(2, shapesQ, 1, false, false, 0, "(<=2 defs of 8 shapes, main 1 node)"), fam_FC(1, shapesAll, 2, true, false, 2, "(1 def of 16 shapes, main<=2 nodes, rich args, both file layouts)"), fam_FC(2, shapesQ, 1, true, false, 0, "(<=2 defs of 8 shapes, main 1 node, rich args incl. nested calls)"), fam_FC(3, shapesR, 1, false, false, 0, "(<=3 defs of 5 shapes incl. redefinition with another layout, main 1 node)"), fam_FD(7, 1, 6), fam_FC_dense(2, shapesQ, 1, "(<=2 defs of 8 shapes, main 1 node, 3 dense layouts)"), fam_FB(3, 2, true)};
     if (T) { L.push_back(fam_FA(4, 2, true)); L.push_back(fam_FB(4, 2)); L.push_back(fam_FC(2, shapesAll, 2, false, false, 0, "(<=2 defs of 16 shapes, main<=2 nodes)")); L.push_back(fam_FC(3, shapesQ, 1, false, false, 0, "(<=3 defs of 8 shapes, main 1 node)")); L.push_back(fam_FD(11, 2, 8)); }
   } else if (P == "C07") {
     o = [](orc::An &a, vf::Stats &st) { orc::oracle_C07(a, st); };
@@ -261,7 +261,7 @@ int main(int argc, char **argv) {
     if (T) { L.push_back(fam_FB(4, 2)); L.push_back(fam_FC(2, shapesAll, 2, false, false, 2, "(<=2 defs of 16 shapes, main<=2 nodes, both file layouts)")); L.push_back(fam_FC(3, shapesQ, 1, false, false, 2, "(<=3 defs of 8 shapes, main 1 node, both file layouts)")); L.push_back(fam_FA(5, 2, false)); }
   } else if (P == "C08") {
     o = orc::oracle_C08;
-    L = {fam_FD(11, 1, 8), fam_semladder(T ? 40 : 24), fam_FA(3, 2, true), fam_FB(3, 2), fam_FC(2, shapesQ, 1, false, false, 2, "(<=2 defs of 8 shapes, main 1 node, both file layouts)"), fam_FA(3, 2, true, true), fam_FC_dense(2, shapesQ, 1, "(<=2 defs of 8 shapes, main 1 node, 3 dense layouts)")};
+    L = {fam_FD(11, 1, 8), fam_semladder(T ? 40 : 24), fam_FA(3, 2, true), fam_FB(3, 2), fam_FC(2, shapesQ, 1, false, false, 2, "(<=2 defs of 8 shapes, main 1 node, both file layouts)"), fam_FA(3, 2, true, true), fam_FC_dense(2, shapesQ, 1, "(<=2 defs of 8 shapes, main 1 node, 3 dense layouts)"), fam_FB(3, 2, true)};
     if (T) { L.push_back(fam_FD(11, 2, 10)); L.push_back(fam_FA(4, 2, true)); L.push_back(fam_FB(4, 2)); L.push_back(fam_FC(2, shapesAll, 2, false, false, 2, "(<=2 defs of 16 shapes, main<=2 nodes, both file layouts)")); }
   } else if (P == "C16") {
     o = orc::oracle_C16;
